@@ -2,3 +2,5 @@
 import McpModel.Base.Proto
 import McpModel.EventStore.Props
 import McpModel.EventStore.Driver
+import McpModel.OAuth.Props
+import McpModel.OAuth.Challenge
